@@ -738,6 +738,7 @@ pub fn run(rep: &mut Report, thorough: bool, release: bool) {
     run_live(rep, thorough, release);
     unstoppable_leader(rep, thorough, release);
     killed_while_stopping(rep, thorough, release);
+    unterminated_section_dynamic(rep, thorough, release);
     if !release {
         run_memory_images(rep, thorough);
         run_pure(rep, if thorough { 400_000 } else { 40_000 });
@@ -796,7 +797,7 @@ pub fn run_memory_images(rep: &mut Report, thorough: bool) {
         }
     };
     for (b64, section_only) in [(true, false), (true, true), (false, false)] {
-        let spec = ElfSpec { bits64: b64, phdr_note: if section_only { None } else { Some((1..=20).collect()) }, section_note: if section_only { Some((1..=20).collect()) } else { None }, soname: Some("libmem.so.1".into()), section_table: true, text: vec![0x90; 64], vaddr_bias: 0, data_pages: 1, empty_first_note: false, text_skew: 0, soname_last: false };
+        let spec = ElfSpec { bits64: b64, phdr_note: if section_only { None } else { Some((1..=20).collect()) }, section_note: if section_only { Some((1..=20).collect()) } else { None }, soname: Some("libmem.so.1".into()), section_table: true, text: vec![0x90; 64], vaddr_bias: 0, data_pages: 1, empty_first_note: false, text_skew: 0, soname_last: false, dynamic_section_cuts_null: false };
         let built = elf::build(&spec);
         // in memory the section table of `build` lies beyond the loaded segments; here the whole file
         // image is placed in memory, so every table is reachable
@@ -943,4 +944,51 @@ fn killed_while_stopping(rep: &mut Report, thorough: bool, release: bool) {
         }
     }
     rep.require("worker_runs[killed-while-stopping]", 1);
+}
+
+
+// ---------------------------------------------------------------------------------------------
+// (i) a mapped library whose `.dynamic` section has no terminator inside it
+// ---------------------------------------------------------------------------------------------
+
+/// The module carries a build id (so it is a module), no SONAME in its program-header dynamic
+/// segment (so the section table is consulted), and a `.dynamic` section whose size stops short of
+/// the DT_NULL entry. Walking that section must end - with "no SONAME" - not go round for ever.
+fn unterminated_section_dynamic(rep: &mut Report, thorough: bool, release: bool) {
+    let mut rng = Rng::new(rep.seed.wrapping_mul(99_013));
+    for k in 0..(if thorough { 8 } else { 2 }) {
+        let mut b = Builder::new();
+        b.spec.dir = crate::target::new_dir("c02dyn");
+        let dir = b.spec.dir.clone();
+        let mut files = Vec::new();
+        for (j, b64) in [(0, true), (1, k % 2 == 0)] {
+            let spec = ElfSpec { bits64: b64, phdr_note: Some((1..=20).collect()), section_note: None, soname: None, section_table: true, text: vec![0x90; 64], vaddr_bias: 0, data_pages: 1, empty_first_note: false, text_skew: 0, soname_last: false, dynamic_section_cuts_null: true };
+            scen::add_elf_file(&mut b, &mut rng, &dir, &format!("libnoterm{j}.so"), spec, j == 1 && k % 2 == 1, &mut files);
+        }
+        b.sentinel(&mut rng, Mode::Pause, &StackShape::default(), None, None);
+        let t = match Target::spawn(b.spec.clone(), &b.opts) {
+            Ok(t) => t,
+            Err(e) => {
+                rep.inconclusive(format!("target did not start: {e}"));
+                continue;
+            }
+        };
+        let o = DumpOpts::new(t.pid, t.pid);
+        let r = run_worker_wall(&o, release, 40);
+        unsafe {
+            libc::kill(t.pid, libc::SIGCONT);
+        }
+        rep.case(fnv(format!("noterm/{k}").as_bytes()), true);
+        rep.count("worker_runs[unterminated-section-dynamic]", 1);
+        match &r {
+            WorkerOutcome::Ok => rep.count("outcome_ok", 1),
+            WorkerOutcome::Err(_) => rep.count("outcome_err", 1),
+            WorkerOutcome::Harness(e) => rep.inconclusive(format!("worker harness error: {e}")),
+            _ => {}
+        }
+        if let Some(sig) = classify(&r) {
+            rep.violation(&sig, json!({"category": "unterminated-section-dynamic", "case": "mapped library with a build id, no SONAME, and a .dynamic section that ends before its DT_NULL", "outcome": format!("{r:?}"), "profile": if release { "release" } else { "debug" }}));
+        }
+    }
+    rep.require("worker_runs[unterminated-section-dynamic]", 2);
 }
